@@ -93,7 +93,24 @@ def lsmCmd : List String → Option String
          let merged := mergeAll ((pick lvF i0 ++ pick lpF i1).map File.entries)
          let kept := dropLoop qq (isBaseLevel lv l) none merged
          let outsOk : Bool := decide ((os.map Prod.snd).flatten = kept)
-         some s!"invalid outputs-match-drop-rule={outsOk} kept={kept.length} outputs={(os.map Prod.snd).flatten.length}")
+         let st : State := { mem := [], imm := none, levels := lv, lastSeq := ls }
+         let i0f := pick lvF i0
+         let i1f := pick lpF i1
+         let r0 := unpick lvF i0
+         let r1 := unpick lpF i1
+         let shape : String := match hull i0f, minKey (i0f ++ i1f), maxKey (i0f ++ i1f) with
+           | some (lo, hi), some loAll, some hiAll =>
+             let a : Bool := if l = 0 then r0.all fun g => !userRangeOverlaps g lo hi || i0f.all fun f => decide (f.num < g.num)
+               else r0.all fun g => i0f.all fun f => kLt g.largest f.smallest || (kLt f.largest g.smallest && !(g.smallest.1 == f.largest.1))
+             let b : Bool := outside r1 loAll hiAll
+             let c : Bool := r1.all fun g => !userRangeOverlaps g lo hi
+             let d : Bool := r1.all fun g => !(g.smallest.1 == hiAll.1)
+             let culprit := (r1.filter fun g => g.smallest.1 == hiAll.1).map File.num
+             s!"remaining-level-files-ok={a} remaining-next-level-outside-range={b} remaining-next-level-no-overlap={c} remaining-next-level-does-not-share-last-user-key={d} sharing={culprit}"
+           | _, _, _ => "no-hull"
+         let basics : Bool := decide (l + 1 < 7) && !i0f.isEmpty && decide (qq ≤ st.lastSeq) &&
+           decide (i0f.length = i0.length) && decide (i1f.length = i1.length)
+         some s!"invalid outputs-match-drop-rule={outsOk} kept={kept.length} outputs={(os.map Prod.snd).flatten.length} basics={basics} {shape} output-numbers-fresh={os.all (fun o => !(lv.flatten.map File.num).contains o.1)}")
     | _, _, _, _, _, _, _ => none
   | _ => none
 
